@@ -88,7 +88,7 @@ L2_PLAN = {
 }
 L2_CAT = {"MAXRUN": "C07", "RESUME": "C08", "RETRY": "C08", "W0": "C13", "W1": "C13", "W2": "C13", "W3": "C13", "W4": "C13", "FETCH": "C06", "CRASH": "C05", "C16": "C16",
           # accounting rules (the numbers bita reports): part of the specification, outside the 17 properties - counted in evidence, never a VIOLATION
-          "ACCT": "beyond-the-list"}
+          "ACCT": "beyond-the-list", "HDR": "beyond-the-list"}
 
 
 def run_l2(prop, tier, out, workdir):
